@@ -42,7 +42,10 @@ def get_go_type_from_attributes(molecule, prefix, **kwargs):
     """
     for node in molecule.nodes:
         attrs = molecule.nodes[node]
-        if attributes_match(attrs, kwargs) and attrs['atype'].startswith(prefix):
+        # The Go virtual sites are typed "<prefix>_<resid>"; without the
+        # underscore a prefix such as "P" or "SC" also matches the regular
+        # particles of the residue (P2, SC3, ...), which come first.
+        if attributes_match(attrs, kwargs) and attrs['atype'].startswith(prefix + '_'):
             yield attrs['atype']
     else:
         resid = kwargs['resid']
